@@ -53,9 +53,14 @@ def worker(job):
     else:
         text = marked_text(job["g"], job["marks"])
         configs = [("glr", tb, ps, pse) for tb in ("LALR", "SLR") for ps, pse in ((False, False), (True, False), (False, True), (True, True))]
+        # options left unspecified take the DOCUMENTED defaults of GLRParser (docs/parser.md: both strategies off), whatever the other one is
+        configs += [("glr", "LALR", True, None), ("glr", "LALR", None, True), ("glr", "LALR", None, None)]
     for kind, tables, ps, pse in configs:
-        parser, err = real.build(kind, text, tables=tables, prefer_shifts=ps, prefer_shifts_over_empty=pse)
-        name = "%s [%s,%s,ps=%d,pse=%d]" % (job["name"], kind, tables, ps, pse)
+        given = {k: v for k, v in (("prefer_shifts", ps), ("prefer_shifts_over_empty", pse)) if v is not None}
+        parser, err = real.build(kind, text, tables=tables, **given)
+        name = "%s [%s,%s,%s]" % (job["name"], kind, tables, ",".join("%s=%s" % (k.replace("prefer_shifts", "ps").replace("_over_empty", "e"), "unspecified" if v is None else int(v))
+                                                                   for k, v in (("prefer_shifts", ps), ("prefer_shifts_over_empty", pse))))
+        ps, pse = bool(ps), bool(pse)      # unspecified = the documented GLR default (off)
         if parser is None:
             out.append({"name": name, "origin": job["origin"], "built": False, "err": err, "gtext": text, "kind": job["kind"]})
             continue
